@@ -122,6 +122,13 @@ def inline_unknown(jbodies, known, adts=None):
             # arguments -> parameter locals
             for a_i, a in enumerate(t["args"]):
                 blk["stmts"].append({"k": "assign", "place": {"l": lo + 1 + a_i, "p": []}, "rv": {"k": "use", "op": a}, "line": line, "exp": False, "inl_arg": H})
+                # an Option / Result argument whose variant the call site fixes (`helper(x, Some(key))`): the helper's
+                # test of it is resolved per call site
+                pty = h["locals"][1 + a_i]["ty"] if 1 + a_i < len(h["locals"]) else ""
+                if re.match(r"^(std|core)::(result::Result|option::Option)<", pty):
+                    c.setdefault("_inl_roots", []).append(lo + 1 + a_i)
+                    if a.get("k") in ("move", "copy") and _bare(a["place"]):
+                        c["_inl_roots"].append(a["place"]["l"])
             target, unwind, dest = t.get("target"), t.get("unwind"), t["dest"]
             blk["term"] = {"k": "goto", "target": bo, "line": line, "exp": False, "inl_call": H, "inl_callee": t.get("callee")}
             for hb in h["blocks"]:
